@@ -561,6 +561,10 @@ class Evaluator:
                 return a + b
         if isinstance(op, ast.Sub) and isinstance(a, (int, float)) and isinstance(b, (int, float)):
             return a - b
+        num = (int, float)
+        if isinstance(op, (ast.Add, ast.Sub)) and ((isinstance(a, str) and isinstance(b, num)) or (isinstance(a, num) and isinstance(b, str))) \
+                and not isinstance(a, bool) and not isinstance(b, bool):
+            raise Raised("TypeError")
         raise Unsupported("binary operator %s on %r, %r" % (type(op).__name__, a, b))
 
     def call(self, e, env):
@@ -598,6 +602,8 @@ class Evaluator:
             if f.attr in ("strip", "lstrip", "rstrip", "upper", "lower", "replace", "removeprefix", "removesuffix") and isinstance(recv, str) and \
                     all(isinstance(a, str) for a in args) and not e.keywords:
                 return getattr(recv, f.attr)(*args)
+            if f.attr in ("items", "keys", "values") and isinstance(recv, dict) and not args:
+                return {"items": lambda d: [(k, v) for k, v in d.items()], "keys": lambda d: list(d.keys()), "values": lambda d: list(d.values())}[f.attr](recv)
             if f.attr == "append" and isinstance(recv, list) and len(args) == 1:
                 recv.append(args[0])
                 return None
